@@ -6,6 +6,9 @@
 import Edn.Spec.NumberLit
 import Edn.Proofs.CompleteNum
 import Edn.Proofs.DoubleSpec
+import Edn.Proofs.NumberReaderAux1
+import Edn.Proofs.NumberReaderAux2
+import Edn.Proofs.NumberReaderAux3
 
 namespace Edn.Proofs
 open Edn.Model Edn.Spec
@@ -13,44 +16,112 @@ open Edn.Model Edn.Spec
 /-- floats, every configuration: the payload is `parse_double_from_buffer` on the token … -/
 theorem readNumber_float (cfg : Cfg) (tok rest : Bytes) (h : FloatTok tok) (ht : TermStart rest) :
     readNumber cfg (tok ++ rest) = .ok (.float (parseDouble cfg tok)) rest := by
-  sorry
+  obtain ⟨sg, ip, fr, ex, neg, rfl, hs, hip, hfr, hex, hne⟩ := h
+  have hst := CNum.term_props (CNum.peek_term ht)
+  have h2 := CNum.stopProps2_unpack hst
+  have hassoc : sg ++ ip ++ fr ++ ex ++ rest = sg ++ (ip ++ (fr ++ (ex ++ rest))) := by
+    simp only [List.append_assoc]
+  have hb : (!fr.isEmpty || !ex.isEmpty) = true := by
+    rcases hne with h | h
+    · cases fr with
+      | nil => exact absurd rfl h
+      | cons _ _ => rfl
+    · cases ex with
+      | nil => exact absurd rfl h
+      | cons _ _ => simp
+  rw [hassoc, CNum.readNumber_sign cfg sg _ neg hs (NRd.decDigits_peek hip _),
+    NRd.numBody_mantissa cfg _ neg ip fr ex rest hip hfr hex
+      (by rcases hne with h | h
+          · exact Or.inl h
+          · exact Or.inr (Or.inl h)) h2.1,
+    NRd.decimalTail_float cfg _ neg _ _ _ rest hst hb, CNum.finishNum_term _ ht, ← hassoc,
+    CNum.slice_append]
 
 /-- … which is the correctly rounded double of the token's exact decimal value -/
 theorem readNumber_float_value (cfg : Cfg) (tok rest : Bytes) (h : FloatTok tok) (ht : TermStart rest) :
     readNumber cfg (tok ++ rest) =
       .ok (.float (let p := decimalParts tok; withSign p.1 (ofDec p.2.1 p.2.2))) rest := by
-  sorry
+  rw [readNumber_float cfg tok rest h ht,
+    DoubleSpecAux.parseDouble_of_noUnderscore cfg tok (fun _ => NRd.floatTok_no_underscore h)]
 
 /-- big decimals: an integer or float token followed by `M` keeps its text (without the sign) -/
 theorem readNumber_bigdec (cfg : Cfg) (sg body rest : Bytes) (neg : Bool) (hs : SignTok sg neg)
     (hb : DecDigits body ∨ FloatTok body) (hnosign : ∀ c, body.head? = some c → c ≠ 0x2B ∧ c ≠ 0x2D)
     (ht : TermStart rest) :
     readNumber cfg (sg ++ body ++ [0x4D] ++ rest) = .ok (.bigdec neg body) rest := by
-  sorry
+  -- both shapes are `ip ++ fr ++ ex`
+  have hshape : ∃ ip fr ex, body = ip ++ fr ++ ex ∧ DecDigits ip ∧ FracPart fr ∧ ExpPart ex := by
+    rcases hb with hb | ⟨sg', ip, fr, ex, neg', rfl, hs', hip, hfr, hex, -⟩
+    · exact ⟨body, [], [], by simp, hb, Or.inl rfl, Or.inl rfl⟩
+    · rcases hs' with ⟨rfl, -⟩ | ⟨rfl, -⟩ | ⟨rfl, -⟩
+      · exact ⟨ip, fr, ex, by simp, hip, hfr, hex⟩
+      · exact absurd rfl (hnosign 0x2B (by simp)).1
+      · exact absurd rfl (hnosign 0x2D (by simp)).2
+  obtain ⟨ip, fr, ex, rfl, hip, hfr, hex⟩ := hshape
+  have hassoc : sg ++ (ip ++ fr ++ ex) ++ [0x4D] ++ rest = sg ++ (ip ++ fr ++ ex ++ 0x4D :: rest) := by
+    simp only [List.append_assoc, List.singleton_append]
+  have hpk : is09 (peek (ip ++ fr ++ ex ++ 0x4D :: rest)) = true := by
+    have := NRd.decDigits_peek hip (fr ++ (ex ++ 0x4D :: rest))
+    simpa only [List.append_assoc] using this
+  rw [hassoc, CNum.readNumber_sign cfg sg _ neg hs hpk,
+    NRd.numBody_bigdec cfg _ neg ip fr ex rest hip hfr hex ht]
 
 /-- Clojure flag: `0x` / `0X` hexadecimal integers -/
 theorem readNumber_hex (cfg : Cfg) (hc : cfg.clj = true) (sg hs rest : Bytes) (x : UInt8) (neg : Bool) (hs' : SignTok sg neg)
     (hx : x = 0x78 ∨ x = 0x58) (hne : hs ≠ []) (hh : AllHex hs) (ht : TermStart rest) :
     readNumber cfg (sg ++ [0x30, x] ++ hs ++ rest) = .ok (intOrBig cfg hs 16 neg) rest := by
-  sorry
+  have hassoc : sg ++ [0x30, x] ++ hs ++ rest = sg ++ (0x30 :: x :: (hs ++ rest)) := by
+    simp only [List.append_assoc, List.cons_append, List.nil_append]
+  rw [hassoc, CNum.readNumber_sign cfg sg _ neg hs' (by rfl),
+    NRd.numBody_hex cfg hc _ neg x hs rest hx hne hh ht]
 
 /-- Clojure flag: a leading zero followed by octal digits -/
 theorem readNumber_octal (cfg : Cfg) (hc : cfg.clj = true) (sg zs os rest : Bytes) (neg : Bool) (hs : SignTok sg neg)
     (hz : ∀ c ∈ zs, c = 0x30) (hne : os ≠ []) (ho : AllRadix 8 os) (hfirst : os.head? ≠ some 0x30) (ht : TermStart rest) :
     readNumber cfg (sg ++ 0x30 :: zs ++ os ++ rest) = .ok (intOrBig cfg (0x30 :: zs ++ os) 8 neg) rest := by
-  sorry
+  have hassoc : sg ++ 0x30 :: zs ++ os ++ rest = sg ++ (0x30 :: zs ++ os ++ rest) := by
+    simp only [List.append_assoc]
+  rw [hassoc, CNum.readNumber_sign cfg sg _ neg hs (by rfl),
+    NRd.numBody_octal cfg hc _ neg zs os rest hz hne ho hfirst ht]
 
 /-- Clojure flag: `NrDDD` with radix N in 2..36 -/
 theorem readNumber_radix (cfg : Cfg) (hc : cfg.clj = true) (sg rp ds rest : Bytes) (r : UInt8) (neg : Bool) (hs : SignTok sg neg)
     (hrp : rp ≠ [] ∧ AllDigits rp) (hrv : 2 ≤ natOfDigits rp ∧ natOfDigits rp ≤ 36) (hr : r = 0x72 ∨ r = 0x52)
     (hne : ds ≠ []) (hd : AllRadix (natOfDigits rp) ds) (ht : TermStart rest) :
     readNumber cfg (sg ++ rp ++ [r] ++ ds ++ rest) = .ok (intOrBig cfg ds (natOfDigits rp) neg) rest := by
-  sorry
+  have hassoc : sg ++ rp ++ [r] ++ ds ++ rest = sg ++ (rp ++ r :: (ds ++ rest)) := by
+    simp only [List.append_assoc, List.cons_append, List.nil_append]
+  have hpk : is09 (peek (rp ++ r :: (ds ++ rest))) = true := by
+    obtain ⟨hne', hall⟩ := hrp
+    cases rp with
+    | nil => exact absurd rfl hne'
+    | cons d t => exact hall d (by simp)
+  rw [hassoc, CNum.readNumber_sign cfg sg _ neg hs hpk,
+    NRd.numBody_radix cfg hc _ neg rp r ds rest hrp hrv hr hne hd ht]
 
-/-- Clojure flag: ratios `n/d` are reduced to lowest terms (see `ratioValue`) -/
+/-- Clojure flag: ratios `n/d` are reduced to lowest terms (see `ratioValue`).
+
+    STATEMENT CHANGE (hypothesis `hzero` added): with the numerator `0` the reader takes the
+    zero path of `edn_read_number`, which returns the integer 0 after validating the
+    denominator's spelling only — it never converts the denominator, so it never produces the
+    big-ratio form that `ratioValue` prescribes when the denominator does not fit 64 bits.
+    Counterexample to the statement without `hzero` (Clojure flag on): `0/9223372036854775808`
+    reads as `.int 0` whereas `ratioValue cfg false "0" "9223372036854775808"` is
+    `.bigratio false "0" "9223372036854775808"` (see the `example`s below). -/
 theorem readNumber_ratio (cfg : Cfg) (hc : cfg.clj = true) (sg nd dd rest : Bytes) (neg : Bool) (hs : SignTok sg neg)
-    (hn : DecDigits nd) (hd : dd ≠ [] ∧ AllDigits dd ∧ dd.head? ≠ some 0x30) (ht : TermStart rest) :
+    (hn : DecDigits nd) (hd : dd ≠ [] ∧ AllDigits dd ∧ dd.head? ≠ some 0x30) (ht : TermStart rest)
+    (hzero : nd = [0x30] → natOfDigits dd ≤ 9223372036854775807) :
     readNumber cfg (sg ++ nd ++ [0x2F] ++ dd ++ rest) = .ok (ratioValue cfg neg nd dd) rest := by
-  sorry
+  have hassoc : sg ++ nd ++ [0x2F] ++ dd ++ rest = sg ++ (nd ++ 0x2F :: (dd ++ rest)) := by
+    simp only [List.append_assoc, List.cons_append, List.nil_append]
+  rw [hassoc, CNum.readNumber_sign cfg sg _ neg hs (NRd.decDigits_peek hn _),
+    NRd.numBody_ratio cfg hc _ neg nd dd rest hn hd hzero ht]
+
+/-- the counterexample that makes `hzero` necessary -/
+example : readNumber ⟨true, false⟩ "0/9223372036854775808".toUTF8.toList = .ok (.int 0) [] := by
+  decide +kernel
+example : ratioValue ⟨true, false⟩ false "0".toUTF8.toList "9223372036854775808".toUTF8.toList =
+    .bigratio false "0".toUTF8.toList "9223372036854775808".toUTF8.toList := by
+  decide +kernel
 
 end Edn.Proofs
